@@ -119,7 +119,7 @@ func main() {
 	fset := token.NewFileSet()
 	imp := importer.ForCompiler(fset, "source", nil)
 	nextSite := 1
-	var unbufferedMakes, sends []string
+	var unbufferedMakes, sends, selectSends []string
 	unbufObjs := map[types.Object]bool{} // variables assigned an unbuffered channel
 	sendObjs := map[types.Object]bool{}  // local variables that are sent on
 	knownMakes := map[token.Pos]bool{}   // unbuffered makes whose variable is known
@@ -475,6 +475,15 @@ func main() {
 					stmtList(n.Body, false)
 				case *ast.CommClause:
 					stmtList(n.Body, false)
+					if n.Comm != nil {
+						// the communication of this clause has just succeeded: whoever it
+						// released must have marked itself runnable before we go on
+						sp = append(sp, splice{off: off(n.Colon) + 1, text: " simrt.AfterOp(); "})
+						used = true
+						if _, isSend := n.Comm.(*ast.SendStmt); isSend {
+							selectSends = append(selectSends, fmt.Sprintf("%s:%d", relFile, line(n.Pos())))
+						}
+					}
 				case *ast.GoStmt:
 					// go f(a, b)  ->  simrt.Go2(f, a, b): the new goroutine becomes a
 					// simulated task; arguments are still evaluated at the go statement
@@ -537,6 +546,13 @@ func main() {
 						}
 					}
 				case *ast.CallExpr:
+					if id, ok := n.Fun.(*ast.Ident); ok && id.Name == "close" && len(n.Args) == 1 {
+						if _, isBuiltin := info.Uses[id].(*types.Builtin); isBuiltin {
+							rep.ChanRewritten++
+							sp = append(sp, splice{off: off(id.Pos()), end: off(id.End()), text: "simrt.Close"})
+							used = true
+						}
+					}
 					if isUnbufferedMake(n, info) {
 						unbufferedMakes = append(unbufferedMakes, fmt.Sprintf("%s:%d", relFile, line(n.Pos())))
 						allMakes = append(allMakes, n.Pos())
@@ -629,28 +645,14 @@ func main() {
 			}
 		}
 	}
-	rendezvous := false
-	for o := range unbufObjs {
-		if sendObjs[o] {
-			rendezvous = true
-		}
+	if len(unbufferedMakes) > 0 && len(selectSends) > 0 {
+		// Simple sends and receives really block (after handing the baton on), so
+		// they meet each other and the polling selects. What cannot be modelled
+		// is a SEND CASE of a select meeting a receive case of another select on
+		// an unbuffered channel: both only poll.
+		rep.ChanOps = append(rep.ChanOps, fmt.Sprintf("select with send case(s) at %v and unbuffered channel(s) created at %v: two polling selects cannot meet on an unbuffered channel", selectSends, unbufferedMakes))
 	}
-	for _, p := range allMakes {
-		if !knownMakes[p] && len(sends) > 0 {
-			rendezvous = true // an unbuffered channel that escapes our simple flow tracking
-		}
-	}
-	if len(unbufferedMakes) > 0 && unknownSend {
-		rendezvous = true
-	}
-	if rendezvous {
-		// Channel operations are modelled by polling. Two polling parties never
-		// meet on an unbuffered channel (a non-blocking send only succeeds if a
-		// receiver is parked, and vice versa), so a value handed over an
-		// unbuffered channel between simulated tasks cannot be modelled; close-only
-		// signalling channels and buffered channels can.
-		rep.ChanOps = append(rep.ChanOps, fmt.Sprintf("unbuffered channel(s) created at %v with send(s) at %v: rendezvous between simulated tasks is not modelled", unbufferedMakes, sends))
-	}
+	_, _, _, _, _, _ = unbufObjs, sendObjs, knownMakes, allMakes, unknownSend, sends
 	// generated site count
 	var hot []string
 	for _, st := range rep.Sites {
